@@ -50,5 +50,24 @@ double _ZN5gdstk15oasis_read_realERNS_11OasisStreamE(TokStream* s) { return bc_i
 double _ZN5gdstk23oasis_read_real_by_typeERNS_11OasisStreamENS_13OasisDataTypeE(TokStream* s, uint8_t type) { return bc_i64_f(tok_get(s, K_REAL).a); }
 void _ZN5gdstk16oasis_write_realERNS_11OasisStreamEd(TokStream* s, double v) { tok_put(K_REAL, bc_f_i64(v), 0); }
 #endif
+#else
+/* REAL mode: the same harness calls (tok_put of typed values) lay the file down as BYTES, encoded as the OASIS specification
+   defines each kind - unsigned / signed integer, 2-, 3- and g-delta (form 1), real (type 7: IEEE double), strings as length +
+   bytes - appended to the in-memory file 0 the real reader then opens through the wrapped stdio. Include after vfile.h. */
+enum { K_BYTE = 1, K_UINT, K_INT, K_2D, K_3D, K_GD, K_REAL };
+static int tok_n, tok_k, tok_kind_error;
+static void tok_b(uint8_t b) { if (vf_files[0].len < VF_CAP) vf_files[0].data[vf_files[0].len++] = b; }
+static void tok_u(uint64_t v) { do { uint8_t b = (uint8_t)(v & 0x7f); v >>= 7; if (v) b |= 0x80; tok_b(b); } while (v); }
+static uint64_t tok_mag(uint64_t a, int* neg) { int64_t s = (int64_t)a; *neg = s < 0; return (uint64_t)(s < 0 ? -s : s); }
+static void tok_put(uint8_t kind, uint64_t a, uint64_t b) { int na, nb; uint64_t ma = tok_mag(a, &na), mb = tok_mag(b, &nb);
+  switch (kind) {
+    case K_BYTE: tok_b((uint8_t)a); break;
+    case K_UINT: tok_u(a); break;
+    case K_INT: tok_u((ma << 1) | (uint64_t)na); break;
+    case K_2D: if (mb == 0) tok_u((ma << 2) | (na ? 2 : 0)); else tok_u((mb << 2) | (nb ? 3 : 1)); break;
+    case K_3D: { unsigned dir = mb == 0 ? (na ? 2 : 0) : ma == 0 ? (nb ? 3 : 1) : (!na && !nb) ? 4 : (na && !nb) ? 5 : (na && nb) ? 6 : 7; tok_u(((ma ? ma : mb) << 3) | dir); } break;
+    case K_GD: tok_u((ma << 2) | (na ? 2 : 0) | 1); tok_u((mb << 1) | (uint64_t)nb); break;
+    case K_REAL: tok_b(7); for (int i = 0; i < 8; i++) tok_b((uint8_t)(a >> (8 * i))); break;
+  } }
 #endif
 #endif
